@@ -122,7 +122,7 @@ def gen_events(ctx):
         mag = [0.5 * (i + 1) for i in range(len(ac["num"]))] if ci == 2 else None
         ucell = xtal.make_cell(ac["num"], ac["D"], lat, ac["species"], masses, mag)
         # larger cells on a subset of S only (quick)
-        sub = Ss if (ci == 0 or not ctx.quick) else Ss[:: 4 if ci == 1 else 8]
+        sub = Ss if ci == 0 else Ss[:: (4 if ctx.quick else 3) if ci == 1 else (8 if ctx.quick else 6)]
         for S in sub:
             for style in ("classic", "snf"):
                 if style == "snf" and "err" in snf_table.get(tuple(map(tuple, S)), {}):
@@ -436,18 +436,20 @@ def run_supercell(ctx):
     bad["res"]["atoms"][1]["u"] = bad["res"]["atoms"][0]["u"]      # two atoms on the same site
     ctx.binding_demo("duplicated supercell atom", "MC_SupercellTrace", CFG_TRACE, MC_TEMPLATE % to_tla(bad),
                      "ImplRequirementNoDup")
-    mc = MC_TEMPLATE % ",\n".join(to_tla(e) for e in events)
-    res = ctx.tlc("MC_SupercellTrace", cfg_text=CFG_TRACE, extra_files={"MC_SupercellTrace.tla": mc},
-                  requirement=False, extra_args=("-continue",), keep=True)
     from harness import tlc as tlcmod
-    import re
-    violated = sorted(set(n for n, _ in res.violations))
-    witness = {}
-    for n, tr in res.violations:
-        if n not in witness and tr:
-            st = tr[-1][1]
-            e = st.get("ev", {})
-            witness[n] = dict(S=e.get("smat"), style=e.get("sty"), cell=e.get("ucell"))
+    violated_all, witness = set(), {}
+    CH = 6000
+    for c0 in range(0, len(events), CH):
+        mc = MC_TEMPLATE % ",\n".join(to_tla(e) for e in events[c0:c0 + CH])
+        res = ctx.tlc("MC_SupercellTrace", cfg_text=CFG_TRACE, extra_files={"MC_SupercellTrace.tla": mc},
+                      requirement=False, extra_args=("-continue",), keep=True)
+        for n, tr in res.violations:
+            violated_all.add(n)
+            if n not in witness and tr:
+                e = tr[-1][1].get("ev", {})
+                witness[n] = dict(S=e.get("smat"), style=e.get("sty"), cell=e.get("ucell"))
+        tlcmod.cleanup(res)
+    violated = sorted(violated_all)
     ctx.traces += len(events)
     ctx.extra["events"] = len(events)
     ctx.extra["matrices"] = len(Ss)
@@ -456,12 +458,11 @@ def run_supercell(ctx):
     ctx.sample(events[len(events) // 2])
     req = [v for v in violated if v.startswith("Impl") or v.startswith("Inv")]
     for v in req:
-        # find a witness event from the error trace
         ctx.violation("supercell:" + v, "C04 supercell requirement %s fails on the implementation's result" % v,
                       dict(invariant=v, witness=witness.get(v)))
     drift = [v for v in violated if v.startswith("Conforms")]
     if drift and not req:
         ctx.extra["SPEC-DRIFT"] = drift
         print("SPEC-DRIFT C04: %s (requirement intact)" % drift)
-    tlcmod.cleanup(res)
     return Ss
+
